@@ -58,6 +58,8 @@ def entry_points():
         mk(f"cond_train_mean_var[{vn}]", kern, nz, assume,
            lambda gp, p, x, y, xt, key: (lambda c: (c.loc, c.variance))(gp.condition(y).gp))
         mk(f"predict_train_var[{vn}]", kern, nz, assume, lambda gp, p, x, y, xt, key: gp.predict(y, return_var=True))
+        # both flags: the documented rule is that return_var takes precedence, so this is still "mean and variance at the training inputs"
+        mk(f"predict_train_var_cov_flags[{vn}]", kern, nz, assume, lambda gp, p, x, y, xt, key: gp.predict(y, return_var=True, return_cov=True))
         # conditioning at the training inputs with an explicit predictive noise model / diagonal / alternative kernel
         mk(f"cond_train_banded_pred_noise[{vn}]", kern, nz, assume,
            lambda gp, p, x, y, xt, key: (lambda c: (c.loc, c.variance))(
